@@ -217,3 +217,156 @@ Lemma cgmy_integrate_neg_as_pos G c g y a b : cgmy_integrate_neg G c g y a b = c
 Proof. reflexivity. Qed.
 Lemma cgmy_integrate_x_neg_as_pos G c g y a b : cgmy_integrate_x_neg G c g y a b = - cgmy_integrate_x_pos G c g y (- b) (- a).
 Proof. unfold cgmy_integrate_x_neg, cgmy_integrate_x_pos. ring. Qed.
+
+(* ------------------------------------------------------------------ the branch structure the code executes, every y < 2 *)
+Lemma E1c_derive c0 x : 0 < x -> is_derive (E1c c0) x (- (exp (- x) / x)).
+Proof.
+  intros Hx. unfold E1c.
+  assert (Hc : forall t, 0 < t -> continuous (fun t => exp (- t) / t) t) by (intros t Ht; cont; lra).
+  evar_last.
+  - apply (@is_derive_minus R_AbsRing R_NormedModule).
+    + apply (@is_derive_const R_AbsRing R_NormedModule).
+    + apply (is_derive_RInt (fun t => exp (- t) / t) (fun x => RInt (fun t => exp (- t) / t) 1 x) 1 x).
+      * assert (Hx2 : 0 < x / 2) by lra. exists (mkposreal _ Hx2). intros y Hy.
+        apply (@RInt_correct R_CompleteNormedModule). apply (@ex_RInt_continuous R_CompleteNormedModule).
+        change (Rabs (y - x) < x / 2) in Hy. apply Rabs_def2 in Hy.
+        intros z Hz. apply Hc. assert (0 < Rmin 1 y) by (apply Rmin_pos; lra). lra.
+      * apply Hc. assumption.
+  - unfold minus, plus, opp, zero; simpl. ring.
+Qed.
+
+Section TailCode.
+Variable E1 : R -> R.
+Hypothesis E1_derive : forall x, 0 < x -> is_derive E1 x (- (exp (- x) / x)).
+Variable G : R -> R -> R.
+Hypothesis G_derive : forall s x, 0 < x -> is_derive (G s) x (- (Rpower x (s - 1) * exp (- x))).
+
+Lemma E1_comp_derive u h : 0 < u -> 0 < h -> is_derive (fun h => E1 (u * h)) h (- (exp (- (u * h)) / h)).
+Proof.
+  intros Hu Hh. assert (Huh : 0 < u * h) by nra. evar_last.
+  - apply (is_derive_comp E1 (fun h => u * h) h).
+    + apply E1_derive. assumption.
+    + auto_derive; auto.
+  - unfold scal; simpl; unfold mult; simpl. field. split; lra.
+Qed.
+
+Lemma cgmy_tail_code_derive alpha u h : 0 < u -> 0 < h -> alpha < 2 ->
+  is_derive (fun h => cgmy_tail_code E1 G alpha h u) h (- (exp (- u * h) / Rpower h (1 + alpha))).
+Proof.
+  intros Hu Hh Ha2. assert (Huh : 0 < u * h) by nra. unfold cgmy_tail_code.
+  destruct (Req_dec alpha 0) as [E0 | N0].
+  { subst alpha. rewrite Reqb_same. replace (1 + 0) with 1 by ring. rewrite Rpower_1 by assumption.
+    replace (- u * h) with (- (u * h)) by ring. apply E1_comp_derive; assumption. }
+  rewrite (Reqb_ne alpha 0) by assumption.
+  destruct (Rle_dec 1 alpha) as [H1 | H1].
+  - replace (Rleb 1 alpha) with true by (symmetry; apply Rleb_true; assumption).
+    destruct (Req_dec (alpha - 1) 0) as [E1' | N1].
+    + (* alpha = 1 *)
+      rewrite E1'. rewrite Reqb_same. assert (alpha = 1) by lra. subst alpha.
+      evar_last.
+      * apply (@is_derive_minus R_AbsRing R_NormedModule).
+        -- unfold Rpower. auto_derive. repeat split; try assumption. apply Rgt_not_eq. apply Rmult_lt_0_compat; [lra | apply exp_pos].
+        -- apply is_derive_scal. apply E1_comp_derive; assumption.
+      * unfold minus, plus, opp, scal; simpl; unfold mult; simpl. unfold Rpower.
+        replace (exp (1 * ln h)) with h by (rewrite Rmult_1_l, exp_ln; auto).
+        replace (exp ((1 + 1) * ln h)) with (h * h).
+        2:{ replace ((1 + 1) * ln h) with (ln h + ln h) by ring. rewrite exp_plus, exp_ln by assumption. reflexivity. }
+        replace (- u * h) with (- (u * h)) by ring. field. lra.
+    + (* 1 < alpha < 2: one recursion step *)
+      rewrite (Reqb_ne (alpha - 1) 0) by assumption.
+      evar_last.
+      * apply (@is_derive_minus R_AbsRing R_NormedModule).
+        -- unfold Rpower. auto_derive. repeat split; try assumption. apply Rgt_not_eq. apply Rmult_lt_0_compat; [lra | apply exp_pos].
+        -- apply is_derive_scal. apply (cgmy_tail_derive G G_derive (alpha - 1) u h); try assumption; lra.
+      * unfold minus, plus, opp, scal; simpl; unfold mult; simpl. unfold Rpower.
+        replace (exp ((1 + (alpha - 1)) * ln h)) with (exp (alpha * ln h)) by (f_equal; ring).
+        replace (exp ((1 + alpha) * ln h)) with (h * exp (alpha * ln h)).
+        2:{ replace ((1 + alpha) * ln h) with (ln h + alpha * ln h) by ring. rewrite exp_plus, exp_ln by assumption. reflexivity. }
+        replace (- u * h) with (- (u * h)) by ring.
+        generalize (exp_pos (alpha * ln h)) (exp_pos (- (u * h))). generalize (exp (alpha * ln h)) (exp (- (u * h))).
+        intros Q E HQ HE. field. repeat split; lra.
+  - replace (Rleb 1 alpha) with false by (symmetry; apply Rleb_false; lra).
+    apply (cgmy_tail_derive G G_derive alpha u h); try assumption; lra.
+Qed.
+
+Lemma cgmy_tail_x_code_derive alpha u h : 0 < u -> 0 < h ->
+  is_derive (fun h => cgmy_tail_x_code E1 G alpha h u) h (- (exp (- u * h) / Rpower h alpha)).
+Proof.
+  intros Hu Hh. unfold cgmy_tail_x_code. destruct (Req_dec alpha 1) as [E | N].
+  - subst alpha. rewrite Reqb_same. rewrite Rpower_1 by assumption. replace (- u * h) with (- (u * h)) by ring.
+    apply E1_comp_derive; assumption.
+  - rewrite (Reqb_ne alpha 1) by assumption. apply (cgmy_tail_x_derive G G_derive alpha u h); assumption.
+Qed.
+
+Variables c g m y : R.
+Hypothesis Hg : 0 < g.
+Hypothesis Hm : 0 < m.
+Hypothesis Hy : y < 2.
+
+Theorem cgmy_mass_pos_code_is_RInt a b : 0 < a -> a <= b ->
+  is_RInt (fun x => x ^ 0 * cgmy_nu c g m y x) a b (cgmy_mass_pos_code E1 G c m y a b).
+Proof.
+  intros Ha Hab.
+  apply is_RInt_ext_R with (f := fun x => c * (exp (- m * x) / Rpower x (1 + y))).
+  { intros x Hx. rewrite Rmin_left, Rmax_right in Hx by assumption. rewrite cgmy_nu_pos by lra. simpl. unfold Rdiv. ring. }
+  unfold cgmy_mass_pos_code.
+  replace (c * cgmy_tail_code E1 G y a m - c * cgmy_tail_code E1 G y b m)
+    with (- c * cgmy_tail_code E1 G y b m - - c * cgmy_tail_code E1 G y a m) by ring.
+  apply (is_RInt_derive_R (fun h => - c * cgmy_tail_code E1 G y h m)).
+  - intros x Hx. rewrite Rmin_left, Rmax_right in Hx by assumption. evar_last.
+    + apply (is_derive_scal (fun h => cgmy_tail_code E1 G y h m) x (- c)). apply cgmy_tail_code_derive; try assumption. lra.
+    + unfold scal; simpl; unfold mult; simpl. ring.
+  - intros x Hx. rewrite Rmin_left, Rmax_right in Hx by assumption. apply cont_pos_density. lra.
+Qed.
+Theorem cgmy_mass_neg_code_is_RInt a b : a <= b -> b < 0 ->
+  is_RInt (fun x => x ^ 0 * cgmy_nu c g m y x) a b (cgmy_mass_neg_code E1 G c g y a b).
+Proof.
+  intros Hab Hb.
+  apply is_RInt_ext_R with (f := fun x => c * (exp (g * x) / Rpower (- x) (1 + y))).
+  { intros x Hx. rewrite Rmin_left, Rmax_right in Hx by assumption. rewrite cgmy_nu_neg by lra. simpl. unfold Rdiv. ring. }
+  unfold cgmy_mass_neg_code.
+  apply (is_RInt_derive_R (fun x => c * cgmy_tail_code E1 G y (- x) g)).
+  - intros x Hx. rewrite Rmin_left, Rmax_right in Hx by assumption. evar_last.
+    + apply (is_derive_scal (fun x => cgmy_tail_code E1 G y (- x) g) x c).
+      apply (is_derive_comp (fun h => cgmy_tail_code E1 G y h g) (fun x => - x) x).
+      * apply cgmy_tail_code_derive; try assumption; lra.
+      * auto_derive; auto.
+    + unfold scal; simpl; unfold mult; simpl. replace (- g * - x) with (g * x) by ring. unfold Rdiv. ring.
+  - intros x Hx. rewrite Rmin_left, Rmax_right in Hx by assumption. apply cont_neg_density. lra.
+Qed.
+Theorem cgmy_x_pos_code_is_RInt a b : 0 < a -> a <= b ->
+  is_RInt (fun x => x ^ 1 * cgmy_nu c g m y x) a b (cgmy_x_pos_code E1 G c m y a b).
+Proof.
+  intros Ha Hab.
+  apply is_RInt_ext_R with (f := fun x => c * (exp (- m * x) / Rpower x y)).
+  { intros x Hx. rewrite Rmin_left, Rmax_right in Hx by assumption. rewrite cgmy_nu_pos by lra.
+    rewrite Rpower_plus, Rpower_1 by lra. simpl. field. split; [apply Rgt_not_eq, exp_pos | lra]. }
+  unfold cgmy_x_pos_code.
+  replace (c * (cgmy_tail_x_code E1 G y a m - cgmy_tail_x_code E1 G y b m))
+    with (- c * cgmy_tail_x_code E1 G y b m - - c * cgmy_tail_x_code E1 G y a m) by ring.
+  apply (is_RInt_derive_R (fun h => - c * cgmy_tail_x_code E1 G y h m)).
+  - intros x Hx. rewrite Rmin_left, Rmax_right in Hx by assumption. evar_last.
+    + apply (is_derive_scal (fun h => cgmy_tail_x_code E1 G y h m) x (- c)). apply cgmy_tail_x_code_derive; try assumption. lra.
+    + unfold scal; simpl; unfold mult; simpl. ring.
+  - intros x Hx. rewrite Rmin_left, Rmax_right in Hx by assumption. apply cont_pos_density. lra.
+Qed.
+Theorem cgmy_x_neg_code_is_RInt a b : a <= b -> b < 0 ->
+  is_RInt (fun x => x ^ 1 * cgmy_nu c g m y x) a b (cgmy_x_neg_code E1 G c g y a b).
+Proof.
+  intros Hab Hb.
+  apply is_RInt_ext_R with (f := fun x => - c * (exp (g * x) / Rpower (- x) y)).
+  { intros x Hx. rewrite Rmin_left, Rmax_right in Hx by assumption. rewrite cgmy_nu_neg by lra.
+    rewrite Rpower_plus, Rpower_1 by lra. simpl. field. split; [apply Rgt_not_eq, exp_pos | lra]. }
+  unfold cgmy_x_neg_code.
+  replace (c * (cgmy_tail_x_code E1 G y (- a) g - cgmy_tail_x_code E1 G y (- b) g))
+    with (- c * cgmy_tail_x_code E1 G y (- b) g - - c * cgmy_tail_x_code E1 G y (- a) g) by ring.
+  apply (is_RInt_derive_R (fun x => - c * cgmy_tail_x_code E1 G y (- x) g)).
+  - intros x Hx. rewrite Rmin_left, Rmax_right in Hx by assumption. evar_last.
+    + apply (is_derive_scal (fun x => cgmy_tail_x_code E1 G y (- x) g) x (- c)).
+      apply (is_derive_comp (fun h => cgmy_tail_x_code E1 G y h g) (fun x => - x) x).
+      * apply cgmy_tail_x_code_derive; try assumption; lra.
+      * auto_derive; auto.
+    + unfold scal; simpl; unfold mult; simpl. replace (- g * - x) with (g * x) by ring. unfold Rdiv. ring.
+  - intros x Hx. rewrite Rmin_left, Rmax_right in Hx by assumption. apply cont_neg_density. lra.
+Qed.
+End TailCode.
